@@ -23,6 +23,18 @@ VX_STO(vx_stol, long, 2)
 VX_STO(vx_stoll, long long, 3)
 VX_STO(vx_stoul, unsigned long, 4)
 VX_STO(vx_stoull, unsigned long long, 5)
+extern "C" double vx_ext_stof(int which, int* throws, unsigned long* pos);
+#define VX_STOF(name, T, which)                                                  \
+    inline T name(const std::string& s, std::size_t* pos = 0) {                  \
+        int t = 0; unsigned long p = 0;                                          \
+        double v = vx_ext_stof(which, &t, &p);                                   \
+        if (t) throw std::out_of_range(#name);                                   \
+        if (pos) *pos = p;                                                       \
+        return (T)v;                                                             \
+    }
+VX_STOF(vx_stof, float, 6)
+VX_STOF(vx_stod, double, 7)
+VX_STOF(vx_stold, long double, 8)
 namespace souffle {
 typedef unsigned int vx_ru;
 inline vx_ru vx_RamUnsignedFromString(const std::string& s, std::size_t* pos = 0, int base = 10) {
